@@ -1,7 +1,7 @@
 """C15 - tessellation is a valid triangulation lying on the surface (structural part)."""
 import ast
 from ..model import norm, AnalysisError, walk_no_nested, params_of
-from ..poly import Poly, to_poly, NotPoly
+from ..poly import Poly, to_poly, NotPoly, range_bounds
 from .. import rules_axis as ra
 from .. import rules_layout as rl
 from . import c17
@@ -29,21 +29,21 @@ def check(m, run):
     qm = m.func('_tessellate.make_quad_mesh')
     sc = ra.scope_of(tm)
     # row lengths: points -> size_v ; vertices -> the local bound to the number of v vertices
-    vrow = None
+    vrow = varr = None
     for n in walk_no_nested(tm.node):
         if isinstance(n, ast.Assign) and isinstance(n.targets[0], ast.Name) and isinstance(n.value, ast.ListComp) and 'Vertex' in norm(n.value.elt):
             ext = n.value.generators[0].iter.args[-1]
             if isinstance(ext, ast.BinOp) and isinstance(ext.op, ast.Mult):
                 for side in (ext.left, ext.right):
                     if sc.int_tags(side, n) == {1}:
-                        vrow = side
+                        vrow, varr = side, n.targets[0].id
     if vrow is None:
         raise AnalysisError('make_triangle_mesh: vertex array allocation (u count * v count) not found')
-    rl.ly1_prealloc(m, run, tm, arrays={params_of(tm.node)[0]: ast.parse('size_v', mode='eval').body, 'vertices': vrow})
-    rl.ly1_prealloc(m, run, qm, arrays={'vertices': ast.parse('size_v', mode='eval').body})
+    ct, arr_t = quad_corners(run, tm, lambda c: isinstance(c.func, ast.Name) and ra.scope_of(tm).api_origin(c.func) == 'tessellate_func')
+    cq, arr_q = quad_corners(run, qm, lambda c: norm(c.func) == 'Quad')
+    rl.ly1_prealloc(m, run, tm, arrays={params_of(tm.node)[0]: ast.parse('size_v', mode='eval').body, varr: vrow})
+    rl.ly1_prealloc(m, run, qm, arrays={arr_q: ast.parse('size_v', mode='eval').body})
     run.floor('LY1.prealloc-stride', 9, 'source point, 4 + 4 quad corners')
-    quad_corners(run, tm, 'vertex')
-    quad_corners(run, qm, 'v')
     pj1(run, tm)
     fn1(m, run, tm)
     tv1(m, run)
@@ -58,22 +58,29 @@ def check(m, run):
         run.note('SK1', '_tessellate', 'SKEL drivers not available')
 
 
-def quad_corners(run, fi, prefix):
-    """the four corners of a cell are (i, j), (i+1, j), (i+1, j+1), (i, j+1) in this cyclic order"""
+def quad_corners(run, fi, is_cell_call):
+    """the four corners handed to the cell constructor (tessellation function / Quad) are (i, j), (i+1, j), (i+1, j+1), (i, j+1)"""
+    calls = [c for c in walk_no_nested(fi.node) if isinstance(c, ast.Call) and is_cell_call(c) and len(c.args) >= 4 and all(isinstance(a, ast.Name) for a in c.args[:4])]
+    if len(calls) != 1:
+        raise AnalysisError('%s: cell construction call with four corner vertices not found' % fi.key)
     rows = {}
-    for n in walk_no_nested(fi.node):
-        if isinstance(n, ast.Assign) and isinstance(n.targets[0], ast.Name) and isinstance(n.value, ast.Subscript) and norm(n.value.value) == 'vertices' \
-                and n.targets[0].id[:len(prefix)] == prefix and n.targets[0].id[len(prefix):].isdigit():
-            try:
-                rows[int(n.targets[0].id[len(prefix):])] = (to_poly(n.value.slice), n)
-            except NotPoly:
-                pass
-    if len(rows) != 4:
-        raise AnalysisError('%s: the four corner vertices of a cell were not found' % fi.key)
-    # identify i, j, R from corner 1 = j + i*R
+    arr = None
+    for k, a in enumerate(calls[0].args[:4]):
+        ds = [n for n in walk_no_nested(fi.node) if isinstance(n, ast.Assign) and isinstance(n.targets[0], ast.Name) and n.targets[0].id == a.id
+              and isinstance(n.value, ast.Subscript) and isinstance(n.value.value, ast.Name)]
+        if len(ds) != 1:
+            raise AnalysisError('%s: corner %d is not bound once to an element of the vertex array' % (fi.key, k + 1))
+        arr = ds[0].value.value.id
+        try:
+            rows[k + 1] = (to_poly(ds[0].value.slice), ds[0])
+        except NotPoly:
+            raise AnalysisError('%s: corner index not polynomial' % fi.key)
     p1 = rows[1][0]
-    sizes = [a for a in p1.atoms() if 'size' in a]
-    if len(sizes) != 1:
+    # row length = the atom that multiplies a loop variable in corner 1
+    sizes = [a for mono in p1.t for a, _ in mono if len(mono) == 2]
+    loopvars = {n.target.id for n in walk_no_nested(fi.node) if isinstance(n, ast.For) and isinstance(n.target, ast.Name)}
+    sizes = [a for a in sizes if a not in loopvars]
+    if len(set(sizes)) != 1:
         raise AnalysisError('%s: corner index `%s` not of the form j + i*R' % (fi.key, p1))
     R = Poly.atom(sizes[0])
     want = {2: p1 + R, 3: p1 + R + 1, 4: p1 + 1}
@@ -82,6 +89,7 @@ def quad_corners(run, fi, prefix):
         run.ob('QC1.cell-corners', '%s :: corner %d' % (fi.key, k), ok,
                'corner %d is %s' % (k, want[k]) if ok else 'corner %d is addressed as %s, the cell (i, j) needs %s (order: (i,j), (i+1,j), (i+1,j+1), (i,j+1))' % (k, rows[k][0], want[k]),
                site(fi, rows[k][1]))
+    return rows, arr
 
 
 def pj1(run, fi):
@@ -138,7 +146,8 @@ def tv1(m, run):
             src, dst = uvs[0].value.value, sets[0].targets[0].value
             same = norm(src) == norm(dst)
             ev = isinstance(sets[0].value, ast.Call) and norm(sets[0].value.func) == 'self.evaluate_single' and norm(sets[0].value.args[0]) == norm(uvs[0].targets[0])
-            full = isinstance(lp.iter, ast.Call) and norm(lp.iter.func) == 'range' and norm(lp.iter.args[-1]).startswith('len(') and len(lp.iter.args) == 1
+            rb = range_bounds(lp.iter)
+            full = rb is not None and rb[0] == Poly.const(0) and repr(rb[1]).startswith('len(') and len(rb[1].t) == 1
             skips = [s for s in lp.body if isinstance(s, ast.If) and any(isinstance(x, ast.Continue) for x in s.body)]
             okskip = all('check_params' in norm(s.test) for s in skips)
             okr = same and ev and full and okskip
@@ -153,14 +162,50 @@ def ag6(m, run):
         if len(loops) != 1:
             raise AnalysisError('%s: per-surface loop not found' % fi.key)
         lp = loops[0]
-        # vertex line accumulator: list defined outside the loop, appended inside a loop over `vertices`
-        vlist = None
-        for inner in [n for n in ast.walk(lp) if isinstance(n, ast.For) and isinstance(n.iter, ast.Name)]:
-            apps = [c for c in ast.walk(inner) if isinstance(c, ast.Call) and isinstance(c.func, ast.Attribute) and c.func.attr == 'append']
-            if apps and inner.iter.id == 'vertices' and vlist is None:
-                vlist = norm(apps[0].func.value)
-        offs = [n for n in ast.walk(lp) if (isinstance(n, ast.Assign) and isinstance(n.targets[0], ast.Name) and 'offset' in n.targets[0].id) or
-                (isinstance(n, ast.AugAssign) and isinstance(n.target, ast.Name) and 'offset' in n.target.id)]
+        # locals bound to the tessellator's vertices / faces
+        vsrc = [n.targets[0].id for n in ast.walk(lp) if isinstance(n, ast.Assign) and isinstance(n.targets[0], ast.Name) and isinstance(n.value, ast.Attribute) and n.value.attr == 'vertices']
+        fsrc = [n.targets[0].id for n in ast.walk(lp) if isinstance(n, ast.Assign) and isinstance(n.targets[0], ast.Name) and isinstance(n.value, ast.Attribute) and n.value.attr == 'faces']
+        if not vsrc or not fsrc:
+            raise AnalysisError('%s: tessellator vertices / faces not read' % fi.key)
+        vloops = sorted([n for n in ast.walk(lp) if isinstance(n, ast.For) and isinstance(n.iter, ast.Name) and n.iter.id == vsrc[0]], key=lambda n: n.lineno)
+        floops = [n for n in ast.walk(lp) if isinstance(n, ast.For) and isinstance(n.iter, ast.Name) and n.iter.id == fsrc[0]]
+        if not vloops or len(floops) != 1:
+            raise AnalysisError('%s: vertex / face record loops not found' % fi.key)
+
+        def appended_list(loop):
+            apps = [c for c in ast.walk(loop) if isinstance(c, ast.Call) and isinstance(c.func, ast.Attribute) and c.func.attr == 'append' and isinstance(c.func.value, ast.Name)]
+            return apps[0].func.value.id if apps else None
+        vlist, flist = appended_list(vloops[0]), appended_list(floops[0])
+        # face record terms
+        terms = []
+        for n in sorted([x for x in ast.walk(floops[0]) if isinstance(x, ast.Call)], key=lambda x: (x.lineno, x.col_offset)):
+            if norm(n.func) == 'str' and n.args and isinstance(n.args[0], ast.BinOp):
+                try:
+                    terms.append(to_poly(n.args[0]))
+                except NotPoly:
+                    pass
+        # offset variable: the atom shared by the three index expressions that is not an element of the triangle's id list
+        common = None
+        if len(terms) >= 3:
+            sets = [{a for a in t.atoms() if not a.endswith(']')} for t in terms[-3:]]
+            common = set.intersection(*sets)
+        offname = next(iter(common)) if common and len(common) == 1 else None
+        tri_ids = None
+        if len(terms) >= 3:
+            idatoms = [[a for a in t.atoms() if a.endswith(']')] for t in terms[-3:]]
+            if all(len(x) == 1 for x in idatoms):
+                tri_ids = [x[0] for x in idatoms]
+        okf = offname is not None and tri_ids is not None and len({a[:-3] for a in tri_ids}) == 1 and [a[-3:] for a in tri_ids] == ['[0]', '[1]', '[2]'] and \
+            all(t == Poly.atom(a) + Poly.atom(offname) + (1 if one_based else 0) for t, a in zip(terms[-3:], tri_ids))
+        # the id list is the triangle's own .data
+        if okf:
+            base = tri_ids[0][:-3]
+            d = [n for n in ast.walk(floops[0]) if isinstance(n, ast.Assign) and norm(n.targets[0]) == base]
+            okf = bool(d) and isinstance(d[0].value, ast.Attribute) and d[0].value.attr == 'data' and norm(d[0].value.value) == floops[0].target.id
+        run.ob('AG6.face-record', fi.key, bool(okf), 'face = (t.data[0], t.data[1], t.data[2]) + offset%s' % (' + 1 (1-based)' if one_based else '') if okf else
+               'face indices are %s; expected the three vertex ids of the triangle, each plus the vertex offset%s' % ([repr(t) for t in terms[-3:]], ' plus 1' if one_based else ''), site(fi, floops[0]))
+        offs = [n for n in ast.walk(lp) if offname and ((isinstance(n, ast.Assign) and isinstance(n.targets[0], ast.Name) and n.targets[0].id == offname) or
+                                                        (isinstance(n, ast.AugAssign) and isinstance(n.target, ast.Name) and n.target.id == offname))]
         ok, why = False, 'vertex offset update not found'
         if offs and vlist:
             o = offs[-1]
@@ -169,30 +214,16 @@ def ag6(m, run):
                 why = 'offset = len(%s): vertices emitted so far for all surfaces' % vlist if ok else \
                     'offset is set to `%s`; it must be the number of vertices emitted for *all* previous surfaces (len(%s)), otherwise faces of the third and later surfaces point into an earlier surface' % (norm(o.value), vlist)
             else:
-                ok = isinstance(o.op, ast.Add) and norm(o.value) == 'len(vertices)'
-                why = 'offset += len(vertices)' if ok else 'offset is advanced by `%s`' % norm(o.value)
-            # updated after the faces of the surface were written
-            faces = [n for n in ast.walk(lp) if isinstance(n, ast.For) and isinstance(n.iter, ast.Name) and n.iter.id == 'triangles']
-            if ok and faces and not (faces[0].lineno < o.lineno):
+                ok = isinstance(o.op, ast.Add) and norm(o.value) == 'len(%s)' % vsrc[0]
+                why = 'offset += len(%s)' % vsrc[0] if ok else 'offset is advanced by `%s`' % norm(o.value)
+            if ok and not (floops[0].lineno < o.lineno):
                 ok, why = False, 'the offset is advanced before the faces of the current surface are written'
         run.ob('AG6.face-index-offset', fi.key, ok, why, site(fi, offs[-1] if offs else lp))
-        # face record: vl[k] (+ 1) + offset for k = 0, 1, 2
-        terms = []
-        for n in sorted([x for x in ast.walk(lp) if isinstance(x, ast.Call)], key=lambda x: (x.lineno, x.col_offset)):
-            if isinstance(n, ast.Call) and norm(n.func) == 'str' and n.args and isinstance(n.args[0], ast.BinOp):
-                try:
-                    terms.append(to_poly(n.args[0]))
-                except NotPoly:
-                    pass
-        offname = norm(offs[-1].targets[0] if isinstance(offs[-1], ast.Assign) else offs[-1].target) if offs else 'vertex_offset'
-        want = [Poly.atom('vl[%d]' % k) + Poly.atom(offname) + (1 if one_based else 0) for k in range(3)]
-        okf = terms[-3:] == want if len(terms) >= 3 else False
-        run.ob('AG6.face-record', fi.key, okf, 'face = (vl[0], vl[1], vl[2]) + offset%s' % (' + 1 (1-based)' if one_based else '') if okf else
-               'face indices are %s, expected %s' % ([repr(t) for t in terms[-3:]], [repr(w) for w in want]), site(fi))
         if not one_based:
-            hdr = [n for n in walk_no_nested(fi.node) if isinstance(n, ast.AugAssign) and 'len(' in norm(n.value) and '" 0' in norm(n.value).replace("'", '"')]
-            okh = bool(hdr) and 'len(%s)' % vlist in norm(hdr[0].value) and 'len(str_f)' in norm(hdr[0].value) and norm(hdr[0].value).find('len(%s)' % vlist) < norm(hdr[0].value).find('len(str_f)')
-            run.ob('AG6.off-header', fi.key, okh, 'header: vertex count, face count, 0' if okh else 'OFF header is not `<#vertices> <#faces> 0` of the emitted lists', site(fi))
+            hdr = [n for n in walk_no_nested(fi.node) if isinstance(n, (ast.AugAssign, ast.Assign)) and norm(n.value).count('len(') == 2]
+            okh = bool(hdr) and vlist and flist and 'len(%s)' % vlist in norm(hdr[0].value) and 'len(%s)' % flist in norm(hdr[0].value) and \
+                norm(hdr[0].value).find('len(%s)' % vlist) < norm(hdr[0].value).find('len(%s)' % flist)
+            run.ob('AG6.off-header', fi.key, bool(okh), 'header: vertex count, face count' if okh else 'OFF header is not `<#vertices> <#faces> 0` of the emitted lists', site(fi))
 
 
 def st1(m, run):
@@ -215,7 +246,8 @@ def st1(m, run):
                'per facet: triangle_normal(%s) and the vertices of %s' % (t, t) if okn and okv and same_list else 'facet record does not consist of triangle_normal(t) and t.vertices of the common triangle list', site(fi, lp))
     # the list is the concatenation of every surface's faces, in order
     acc = [n for n in walk_no_nested(fi.node) if isinstance(n, ast.AugAssign) and isinstance(n.target, ast.Name) and n.target.id == loops[0].iter.id]
-    run.ob('ST1.stl-structure', fi.key + ' :: all surfaces', len(acc) == 1 and norm(acc[0].value) == 'triangles', 'faces of every surface are appended', site(fi))
+    fsrc = [n.targets[0].id for n in walk_no_nested(fi.node) if isinstance(n, ast.Assign) and isinstance(n.targets[0], ast.Name) and isinstance(n.value, ast.Attribute) and n.value.attr == 'faces']
+    run.ob('ST1.stl-structure', fi.key + ' :: all surfaces', len(acc) == 1 and bool(fsrc) and norm(acc[0].value) == fsrc[0], 'faces of every surface are appended', site(fi))
 
 
 def wn1(m, run):
